@@ -149,6 +149,83 @@ def inline_constants(trees, report):
             trees[rel].body = [s for s in trees[rel].body if s is not st]
 
 
+def inline_class_constants(trees, report):
+    """a class-level `NAME = <literal display>` that the reference does not have, is stored nowhere else and is read
+    only as `self.NAME` / `cls.NAME` / `<Class>.NAME` (membership, lookup, .get/.items/...): the reads become the
+    display.  A leaf naming a function of the class body becomes `<Class>.<function>`."""
+    inv = load_inventory()
+    if inv is None:
+        return
+    import builtins as _b
+
+    for rel, tree in trees.items():
+        rmods = inv["modules"].get(rel)
+        if rmods is None:
+            continue
+        known_attrs = set()
+        for q, r in rmods.items():
+            known_attrs |= set(r.get("attrs", ()))
+        stable = {n for n in dir(_b) if not n.startswith("_")}
+        for st in tree.body:
+            if isinstance(st, (ast.FunctionDef, ast.AsyncFunctionDef, ast.ClassDef)):
+                stable.add(st.name)
+            elif isinstance(st, (ast.Import, ast.ImportFrom)):
+                for al in st.names:
+                    stable.add((al.asname or al.name).split(".")[0])
+        for cnode in [s for s in tree.body if isinstance(s, ast.ClassDef)]:
+            methods = {x.name for x in cnode.body if isinstance(x, (ast.FunctionDef, ast.AsyncFunctionDef))}
+            ref_class_known = any(q.startswith(cnode.name + ".") for q in rmods)
+            if not ref_class_known:
+                continue
+            for cst in list(cnode.body):
+                if isinstance(cst, ast.AnnAssign) and isinstance(cst.target, ast.Name) and cst.value is not None:
+                    name, value = cst.target.id, cst.value
+                elif isinstance(cst, ast.Assign) and len(cst.targets) == 1 and isinstance(cst.targets[0], ast.Name):
+                    name, value = cst.targets[0].id, cst.value
+                else:
+                    continue
+                if name in known_attrs or name.startswith("__") or not _literal(value, stable | methods) or isinstance(value, ast.Constant):
+                    continue
+                # stored nowhere else, in any module
+                if any(isinstance(n, ast.Attribute) and n.attr == name and isinstance(n.ctx, (ast.Store, ast.Del)) for t in trees.values() for n in ast.walk(t)):
+                    continue
+                if sum(1 for x in cnode.body for n in ([x] if isinstance(x, (ast.Assign, ast.AnnAssign)) else []) for t in (n.targets if isinstance(n, ast.Assign) else [n.target]) if isinstance(t, ast.Name) and t.id == name) != 1:
+                    continue
+                pm = _parents(tree)
+                reads = [n for n in ast.walk(tree) if isinstance(n, ast.Attribute) and n.attr == name and isinstance(n.ctx, ast.Load)]
+                elsewhere = any(isinstance(n, ast.Attribute) and n.attr == name for r2, t in trees.items() if r2 != rel for n in ast.walk(t))
+                plain = [n for x in cnode.body if not isinstance(x, (ast.FunctionDef, ast.AsyncFunctionDef)) for n in ast.walk(x) if isinstance(n, ast.Name) and n.id == name and isinstance(n.ctx, ast.Load)]
+                if elsewhere or plain or not reads:
+                    continue
+                ok = True
+                for n in reads:
+                    par = pm.get(id(n))
+                    if not (isinstance(n.value, ast.Name) and n.value.id in ("self", "cls", cnode.name)):
+                        ok = False
+                    membership = isinstance(par, ast.Compare) and len(par.ops) == 1 and isinstance(par.ops[0], (ast.In, ast.NotIn)) and par.comparators[0] is n
+                    lookup = isinstance(par, ast.Subscript) and par.value is n and isinstance(par.ctx, ast.Load)
+                    readonly = isinstance(par, ast.Attribute) and par.value is n and par.attr in ("items", "keys", "values", "get") and isinstance(pm.get(id(par)), ast.Call) and pm[id(par)].func is par
+                    if not (_immutable_literal(value) or membership or lookup or readonly):
+                        ok = False
+                if not ok:
+                    continue
+                for n in reads:
+                    new = copy.deepcopy(value)
+
+                    class Q(ast.NodeTransformer):
+                        def visit_Name(self, x):
+                            if x.id in methods and isinstance(x.ctx, ast.Load):
+                                return ast.Attribute(value=ast.Name(id=cnode.name, ctx=ast.Load()), attr=x.id, ctx=ast.Load())
+                            return x
+
+                    new = Q().visit(new)
+                    for x in ast.walk(new):
+                        ast.copy_location(x, n)
+                    _replace(pm[id(n)], n, new)
+                cnode.body = [x for x in cnode.body if x is not cst] or [ast.copy_location(ast.Pass(), cst)]
+                report.append(("inlined-class-constant", f"{rel}:{cnode.name}.{name}"))
+
+
 def _replace(parent, old, new):
     for f, v in ast.iter_fields(parent):
         if v is old:
